@@ -498,6 +498,16 @@ func CheckMain(root, id, tier string, seed uint64) int {
 				path = writeReplay(replayDir, name, f)
 			}
 		}
+		if !confirmed && len(f.Recent) > 0 && v.Rule != "hang" && v.Rule != "process-death" {
+			// state that outlives a Server instance (package-level variables, pools,
+			// free lists) makes a case depend on what ran before it in the same
+			// process: replay it behind the cases that preceded it in its worker
+			if withPrelude := confirmWithPrelude(p, tier, dir, f, v); withPrelude != nil {
+				min = withPrelude
+				path = writeReplay(replayDir, name, min)
+				confirmed = true
+			}
+		}
 		if !confirmed {
 			// never reported as a violation: a violation comes with a replay file that reproduces it
 			unconfirmed = append(unconfirmed, fmt.Sprintf("%s (replay %s)", v, path))
@@ -558,6 +568,69 @@ func sanitize(s string) string {
 // minimizeFinding shrinks the case while the same violation class reproduces.
 // In-process violations are minimised by a child process running the
 // delta-debugger; process deaths and hangs by one child per candidate.
+// confirmWithPrelude replays f behind the k cases that preceded it in its
+// worker process (k = 1, 2, 4 ... 64); when the violation reproduces that way
+// the prelude is shrunk (delta debugging over whole cases) and the finding is
+// returned with it. nil: not reproducible this way either.
+func confirmWithPrelude(p *Prop, tier, dir string, f *Finding, v Violation) *Finding {
+	var prev []*Case
+	for _, ref := range f.Recent {
+		c := MakeCase(p, f.Seed, tier, ref)
+		if c != nil {
+			prev = append(prev, c)
+		}
+	}
+	tests := 0
+	reproduces := func(prelude []*Case) bool {
+		tests++
+		fd := &Finding{Case: f.Case, Viol: f.Viol, Ref: f.Ref, Race: f.Race, Prelude: prelude}
+		path := writeReplay(dir, "prelude.json", fd)
+		viol, _, _, _ := replayChild(path, f.Race, 120*time.Second)
+		for _, rv := range viol {
+			if rv.Rule == v.Rule {
+				return true
+			}
+		}
+		return false
+	}
+	var prelude []*Case
+	for k := 1; ; k *= 2 {
+		if k > len(prev) {
+			k = len(prev)
+		}
+		cand := prev[len(prev)-k:]
+		if reproduces(cand) {
+			prelude = cand
+			break
+		}
+		if k == len(prev) {
+			return nil
+		}
+	}
+	// shrink: drop chunks of the prelude while the violation still reproduces
+	for chunk := (len(prelude) + 1) / 2; chunk >= 1 && tests < 60; {
+		removed := false
+		for i := 0; i+chunk <= len(prelude) && tests < 60; {
+			cand := append(append([]*Case{}, prelude[:i]...), prelude[i+chunk:]...)
+			if len(cand) > 0 && reproduces(cand) {
+				prelude = cand
+				removed = true
+			} else {
+				i += chunk
+			}
+		}
+		if chunk == 1 && !removed {
+			break
+		}
+		if chunk > 1 {
+			chunk /= 2
+		}
+	}
+	vv := v
+	vv.Detail += fmt.Sprintf(" [manifests only after %d earlier case(s) ran in the same process - state that outlives the Server instance; the replay file carries them as its prelude]", len(prelude))
+	return &Finding{Case: f.Case, Viol: []Violation{vv}, Ref: f.Ref, Race: f.Race, Prelude: prelude}
+}
+
 func minimizeFinding(dir string, f *Finding) *Finding {
 	v := f.Viol[0]
 	if v.Rule == "hang" {
